@@ -262,6 +262,7 @@ def ids_across_reload(ck, ctx, info):
 
 
 def run(ck, ctx):
+    C.adapter_census(ck, ctx, "reload", ("run::", "load::"))
     info = analyse(ck, ctx)
     phase_order(ck, ctx, info)
     RL.run_false_stops(ck, ctx, "fail-stop")
